@@ -4,6 +4,7 @@ package harness
 // with a scripted public-IP fetcher and reverse-DNS resolver.
 
 import (
+	"encoding/json"
 	"context"
 	"errors"
 	"fmt"
@@ -93,6 +94,9 @@ type Request struct {
 	SackSrv    bool                 `json:"sack_srv,omitempty"` // start a loopback listener at Hostname and use its port
 	Sack       SackCfg              `json:"sack"`
 	Fetcher    string               `json:"fetcher,omitempty"` // "" ok | error | slow | hang
+	// ReadAfter: the caller keeps reading the returned document (serialises it at once and again 5 s later);
+	// ChangedAfterReturn reports a document that was still being written to after the call had returned
+	ReadAfter bool `json:"read_after,omitempty"`
 	DNS        map[string]DNSScript `json:"dns,omitempty"`
 	DNSDefault DNSScript            `json:"dns_default"`
 	CancelAtUs int64                `json:"cancel_at_us,omitempty"`
@@ -121,6 +125,7 @@ type ReqOutcome struct {
 	GorBefore, GorAfter int
 	Port       int // effective port (after SackSrv)
 	RT         *scriptedRT
+	ChangedAfterReturn string
 }
 
 type stubFetcher struct {
@@ -283,6 +288,14 @@ func RunRequest(t *testing.T, rq *Request) *ReqOutcome {
 			w.mu.Lock()
 			w.Returned = true
 			w.mu.Unlock()
+			if rq.ReadAfter && out.Res != nil && !rq.RealTime {
+				b1, _ := json.Marshal(out.Res)
+				time.Sleep(5 * time.Second)
+				b2, _ := json.Marshal(out.Res)
+				if string(b1) != string(b2) {
+					out.ChangedAfterReturn = fmt.Sprintf("the document read right after the call returned: %s; the same document 5 s later: %s", b1, b2)
+				}
+			}
 			cancel()
 			if !rq.RealTime {
 				synctest.Wait()
